@@ -77,10 +77,12 @@ impl TlsHandshaker {
                     root_store.add(cert)?;
                 }
 
+                let root_store = Arc::new(root_store);
                 let config = ClientConfig::builder()
                     .dangerous()
                     .with_custom_certificate_verifier(Arc::new(CustomCertVerifier {
-                        upstream: WebPkiServerVerifier::builder(root_store.into()).build()?,
+                        upstream: WebPkiServerVerifier::builder(Arc::clone(&root_store)).build()?,
+                        roots: root_store,
                         accept_invalid_certs: self.accept_invalid_certs,
                         accept_invalid_hostnames: self.accept_invalid_hostnames,
                     }))
@@ -182,6 +184,7 @@ where
 
 struct CustomCertVerifier {
     upstream: Arc<WebPkiServerVerifier>,
+    roots: Arc<RootCertStore>,
     accept_invalid_certs: bool,
     accept_invalid_hostnames: bool,
 }
@@ -189,6 +192,32 @@ struct CustomCertVerifier {
 impl fmt::Debug for CustomCertVerifier {
     fn fmt(&self, f: &mut fmt::Formatter) -> fmt::Result {
         f.debug_struct("CustomCertVerifier").finish()
+    }
+}
+
+impl CustomCertVerifier {
+    /// Whether the certificate chains to a trusted root and is within its validity period,
+    /// leaving the name it was issued for out of consideration.
+    fn is_valid_apart_from_name(
+        &self,
+        end_entity: &CertificateDer,
+        intermediates: &[CertificateDer],
+        now: UnixTime,
+    ) -> bool {
+        let Some(provider) = rustls::crypto::CryptoProvider::get_default() else {
+            return false;
+        };
+        let Ok(cert) = rustls::server::ParsedCertificate::try_from(end_entity) else {
+            return false;
+        };
+        rustls::client::verify_server_cert_signed_by_trust_anchor(
+            &cert,
+            &self.roots,
+            intermediates,
+            now,
+            provider.signature_verification_algorithms.all,
+        )
+        .is_ok()
     }
 }
 
@@ -211,8 +240,11 @@ impl ServerCertVerifier for CustomCertVerifier {
                 Ok(ServerCertVerified::assertion())
             }
 
-            Err(rustls::Error::InvalidCertificate(rustls::CertificateError::NotValidForName))
-                if self.accept_invalid_hostnames =>
+            // The name mismatch is reported through several `CertificateError` variants depending on
+            // the rustls version, so do not match on the variant: a certificate that is otherwise
+            // valid can only have been rejected because of its name.
+            Err(rustls::Error::InvalidCertificate(_))
+                if self.accept_invalid_hostnames && self.is_valid_apart_from_name(end_entity, intermediates, now) =>
             {
                 Ok(ServerCertVerified::assertion())
             }
